@@ -85,6 +85,29 @@ def census():
             bad.append("the refresh responses are no longer answered (each with Ok) right after the new state is published")
     except (OSError, ValueError) as e:
         bad.append("cannot census cluster/worker.rs: %s" % e)
+    # (6) the metadata worker: what Model/FetchPlan.v's starter step and worker transitions (not tied) are written from
+    try:
+        wk = open(os.path.join(REPO, "cluster/metadata/worker.rs")).read().split("#[cfg(test)]")[0]
+        norm = re.sub(r"\s+", " ", wk)
+        for what, frag in [
+            ("a full fetch is due iff none runs and (the plan owes one or the deadline passed)",
+             "if !matches!(self, PendingFetches::Full { .. }) && (matches!(plan, FetchPlan::Full) || Instant::now() >= *next_refresh_deadline) {"),
+            ("starting the full fetch empties the plan", "*plan = FetchPlan::empty(); *next_refresh_deadline"),
+            ("partial fetches start only into a free slot", "if client_routes_fetch.is_none() && let Some(request) = client_routes.take()"),
+            ("partial topology starts only into a free slot", "if topology_fetch.is_none() && std::mem::take(topology)"),
+            ("a refresh request is received only while no full fetch is in flight",
+             "maybe_refresh_request = self.refresh_channel.recv(), if !full_fetch_in_flight => {"),
+            ("a received request is stored and makes a full fetch owed", "self.set_pending_request(request); plan.note_full_needed();"),
+            ("publish_metadata attaches the pending request", "let response_chan = self .pending_request .take() .map(|request| request.response_chan);"),
+            ("a failed establishment answers the pending request with the error",
+             "if let Some(request) = self.pending_request.take() { // We can ignore sending error - if no one waits for the response we can drop it let _ = request.response_chan.send(Err(err)); }"),
+        ]:
+            if frag not in norm:
+                bad.append("metadata worker changed (%s)" % what)
+        if len(re.findall(r"FetchOutcome::Full\(Err\(err\)\) => \{.*?return ControlFlow::Continue\(\(\)\);", wk, re.S)) != 1:
+            bad.append("metadata worker changed (a failed full fetch gives up the control connection)")
+    except OSError as e:
+        bad.append("cannot census cluster/metadata/worker.rs: %s" % e)
     return bad
 
 
@@ -102,7 +125,7 @@ def post(lines, verdicts):
                     % (len(env), len(e2e), env[0].split("|", 1)[1].strip()[:80])))
     # per-kind floors: the evidence must not claim what was not exercised
     # the runner emits 5 S and 21 Z cases in the quick tier for every seed; up to 3 skip-env are tolerated above
-    floors = {"X": 100000, "Y": 50000, "U": 100000, "Q": 1000, "S": 2, "Z": 14}
+    floors = {"X": 100000, "Y": 50000, "U": 100000, "Q": 1000, "S": 2, "Z": 14, "F": 6000}
     for k, n in floors.items():
         have = [ln for ln in _kind(lines, k) if "| skip-env" not in ln]
         if len(have) < n:
@@ -180,12 +203,16 @@ SPEC = {
              "(error reply / connection cut) while 1/3/6 refreshes are pending - every refresh must be answered (Ok or Err), then one more "
              "must succeed; mode 3 use_keyspace calls alternate with refreshes under a busy worker; judged: every call returned, the "
              "session shows the mock's node count; a scenario with an unexpected outcome is repeated once and the repetition is judged; "
-             "set-up failures = skip-env (tolerated up to max(3, 2%)). non-trivial = X/Y/Q scripts with a poll and a merge, all U/S/Z "
+             "set-up failures = skip-env (tolerated up to max(3, 2%)). F = the metadata worker's REAL FetchPlan bookkeeping (hook "
+             "verif_fetch_plan) on every script over {note_full_needed, note_topology, note_client_routes} of length 8 (thorough 10) and one "
+             "REAL poll of PendingFetches for all 27 slot configurations (absent / in flight / complete per slot), compared exactly with "
+             "Model/FetchPlan.v (note_*, resolve); the model's starter step and worker transitions are proved about and pinned by a census, "
+             "not tied. non-trivial = X/Y/Q scripts with a poll and a merge, all U/S/Z "
              "cases that ran; distinct = distinct case lines"),
     "post": post,
     "extra_coverage": extra_coverage,
     "min_cases": {"quick": 500000, "thorough": 3000000},
-    "nontrivial": lambda ln: "| skip-env" not in ln and (ln[0] in "SZU") or (ln[0] in "XYQ" and "P" in ln.split("|")[0][2:] and "M" in ln.split("|")[0][2:]),
+    "nontrivial": lambda ln: "| skip-env" not in ln and (ln[0] in "SZUF") or (ln[0] in "XYQ" and "P" in ln.split("|")[0][2:] and "M" in ln.split("|")[0][2:]),
     "trusted_base": [
         "hook H7b scylla::cluster::metadata::verif_merge_channel_b (newtype pass-throughs around Sender/Receiver/merge_channel; "
         "its try_recv is a verbatim copy of the one-line body of Receiver::try_recv, pinned by the census) and hook "
@@ -196,6 +223,9 @@ SPEC = {
         "Acquire/Release atomics and the slot mutex are modelled as sequentially consistent atomic steps",
         "Model/ClusterLoop.v (cluster worker select loop) is proved about, not extracted and not compared with the code; "
         "a census pins the select! arms and the awaits it is written from",
+        "Model/FetchPlan.v: only note_full/note_routes/note_topology and resolve are extracted and compared (hook verif_fetch_plan); "
+        "start_due and the worker transitions (fstep) are proved about and pinned by a census of start_due_fetches / work_on_cc / "
+        "work_without_cc / publish_metadata",
     ],
     "assumptions": [
         "the channel model has three closure classes (merge / no-op / clear); the driver's own closures all merge "
